@@ -8,8 +8,10 @@
     needed, the hypothesis "every call returned Ok" drives the unfolding. *)
 From E57 Require Import Base.Prelude Spec.PageSpec Model.PagedWriter Model.Prog Model.Record
   Model.PcWriter Model.FileBin Model.Meta Model.MetaFile Model.WriterApi Spec.FileSpec Spec.FileSpecXml.
-From E57 Require Import Proofs.ProgTransfer Proofs.PcWriterLemmas Proofs.FileRtWriter Proofs.WapiProg Proofs.WapiInv
-  Proofs.WapiMain.
+From E57 Require Import Proofs.ProgTransfer Proofs.PcWriterLemmas Proofs.PcWriterPacket Proofs.BitWidthProofs
+  Proofs.FileRtWriter Proofs.WapiProg Proofs.WapiPc Proofs.WapiRules Proofs.WapiInv Proofs.WapiMain.
+From E57 Require Import Spec.BitSpec Spec.FormatSpec.
+From Coq Require Import ZifyN ZifyNat ZifyBool.
 Open Scope N_scope.
 
 Definition res_ok (r : call_result) : Prop :=
@@ -99,6 +101,7 @@ Inductive explains : list wcall -> list item -> list item_out -> list pointcloud
     explains (AddBlob data :: r) (IBlob data :: is) (OBlob off ln :: os) pcs ims ((data, off, ln) :: bl)
 | ex_pc guid proto body off n pc r is os pcs ims bl :
     Forall is_pc_body body ->
+    item_wf (IPc (proto_dtypes proto) (body_points body)) = true ->
     pc_guid pc = Some guid -> pc_prototype pc = proto -> pc_file_offset pc = off -> pc_records pc = n ->
     explains r is os pcs ims bl ->
     explains (AddPointcloud guid proto :: body ++ [PcFinalize; PcDrop] ++ r)
@@ -229,17 +232,61 @@ Qed.
 Lemma pc_set_keeps f d : pc_guid (pc_set f d) = pc_guid d /\ pc_prototype (pc_set f d) = pc_prototype d.
 Proof. destruct d, f; split; reflexivity. Qed.
 
+(** the binary writer keeps its prototype *)
+Lemma wbtd_proto last w l l' w' :
+  wrun_spec (write_buffer_to_disk last w) l = (l', Ok w') -> w_proto w' = w_proto w.
+Proof.
+  rewrite wbtd_unfold, run_bind, run_wlift. cbn [fst snd].
+  destruct (write_points _ _ _ _) as [[buffer streams]|k|]; cbn [fst snd]; try (intros H; inversion H; fail).
+  rewrite run_bind, run_wlift. cbn [fst snd].
+  destruct (stream_sizes last streams) as [sizes|k|]; cbn [fst snd]; try (intros H; inversion H; fail).
+  unfold wbtd_tail. rewrite run_bind.
+  destruct (0 <? fold_left N.add sizes 0).
+  - cbv zeta. destruct (U16_MAX <? _); [cbn; intros H; inversion H|].
+    rewrite run_bind, run_wr_gen. cbn [fst snd]. rewrite run_bind.
+    match goal with |- context [wrun_spec (wr_all ?cs) ?l0] => destruct (wrun_spec (wr_all cs) l0) as [lx [[]|k|]] end;
+      cbn [fst snd]; try (intros H; inversion H; fail).
+    rewrite run_bind, run_wlift. cbn [fst snd].
+    destruct (drain_streams last streams) as [[s' datas]|k|]; cbn [fst snd]; try (intros H; inversion H; fail).
+    rewrite run_bind.
+    match goal with |- context [wrun_spec (wr_all ?cs) ?l0] => destruct (wrun_spec (wr_all cs) l0) as [ly [[]|k|]] end;
+      cbn [fst snd wret wrun_spec]; try (intros H; inversion H; fail).
+    rewrite run_bind, run_align_gen. cbn [fst snd wret wrun_spec]. intros H. inversion H. reflexivity.
+  - cbn [wret wrun_spec fst snd]. rewrite run_bind, run_align_gen. cbn [fst snd wret wrun_spec].
+    intros H. inversion H. reflexivity.
+Qed.
+
+Lemma add_point_proto vs w l l' w' :
+  wrun_spec (pcw_add_point vs w) l = (l', Ok w') -> w_proto w' = w_proto w.
+Proof.
+  unfold pcw_add_point. destruct (negb _); [cbn; intros H; inversion H|]. cbv zeta.
+  destruct (_ <=? _).
+  - intros H. apply wbtd_proto in H. exact H.
+  - cbn [wret wrun_spec]. intros H. inversion H. reflexivity.
+Qed.
+
+Lemma pcw_new_proto dt l l' w : wrun_spec (pcw_new dt) l = (l', Ok w) ->
+  w_proto w = dt /\ exists mpp, get_max_packet_points dt = Ok mpp.
+Proof.
+  unfold pcw_new. rewrite run_bind, run_wlift. cbn [fst snd].
+  destruct (get_max_packet_points dt) as [mpp|k|]; cbn [fst snd]; try (intros H; inversion H; fail).
+  rewrite run_bind, run_position. cbn [fst snd]. rewrite run_bind, run_wr_gen. cbn [fst snd].
+  rewrite run_bind, run_position. cbn [fst snd wret wrun_spec]. intros H. inversion H. cbn. eauto.
+Qed.
+
 Lemma body_prog : forall body st l l' st' rs ps,
   ws_open st = true -> ws_sub st = SubPc ps -> Forall is_pc_body body ->
   wrun_spec (run st body) l = (l', Ok (st', rs)) -> Forall res_ok rs ->
   exists ps', st' = set_sub st (SubPc ps') /\
     wrun_spec (add_points (body_points body) (ps_w ps)) l = (l', Ok (ps_w ps')) /\
     ps_finalized ps' = ps_finalized ps /\ ps_proto ps' = ps_proto ps /\
-    pc_guid (ps_desc ps') = pc_guid (ps_desc ps) /\ pc_prototype (ps_desc ps') = pc_prototype (ps_desc ps).
+    pc_guid (ps_desc ps') = pc_guid (ps_desc ps) /\ pc_prototype (ps_desc ps') = pc_prototype (ps_desc ps) /\
+    w_proto (ps_w ps') = w_proto (ps_w ps) /\
+    Forall (fun vs => values_ok (w_proto (ps_w ps)) vs = true) (body_points body).
 Proof.
   induction body as [|c body IH]; intros st l l' st' rs ps Ho Hs Hb Hrun Hok.
   - cbn [wapi_run wret wrun_spec] in Hrun. inversion Hrun; subst l' st' rs.
-    exists ps. split; [destruct st; cbn in *; subst; reflexivity|]. cbn [body_points add_points wret wrun_spec]. auto 6.
+    exists ps. split; [destruct st; cbn in *; subst; reflexivity|]. cbn [body_points add_points wret wrun_spec]. auto 9.
   - inversion Hb as [|? ? Hc Hb']; subst.
     destruct (run_cons _ _ _ _ _ _ _ Hrun) as (l1 & s1 & r1 & rs1 & H1 & H2 & ->).
     inversion Hok as [|? ? Hr1 Hok1]; subst.
@@ -247,10 +294,10 @@ Proof.
     destruct c; try (destruct Hc; fail).
     + (* PcSet *)
       cbn [wret wrun_spec] in H1. inversion H1; subst. clear H1.
-      match type of H2 with wrun_spec (wapi_run _ _ ?s0 _) _ = _ => destruct (IH s0 _ _ _ _ _ Ho eq_refl Hb' H2 Hok1) as (ps' & E & Hr & Hf & Hp & Hg & Hpr) end.
+      match type of H2 with wrun_spec (wapi_run _ _ ?s0 _) _ = _ => destruct (IH s0 _ _ _ _ _ Ho eq_refl Hb' H2 Hok1) as (ps' & E & Hr & Hf & Hp & Hg & Hpr & Hwp & Hvs) end.
       cbn [ps_w ps_finalized ps_proto ps_desc] in *. destruct (pc_set_keeps f (ps_desc ps)) as [K1 K2].
       exists ps'. split; [rewrite E; destruct st; reflexivity|]. cbn [body_points].
-      split; [exact Hr|]. split; [exact Hf|]. split; [exact Hp|]. split; congruence.
+      split; [exact Hr|]. split; [exact Hf|]. split; [exact Hp|]. split; [congruence|]. split; [congruence|]. auto.
     + (* PcAddPoint *)
       rewrite run_bind in H1.
       destruct (wrun_spec (pc_add_point values ps) l) as [la [[ps1 r0]|k|]] eqn:E1; cbn [fst snd wret wrun_spec] in H1;
@@ -266,28 +313,57 @@ Proof.
           [reflexivity|destruct Hr1]. }
       subst r1.
       destruct (pc_add_point_ok_inv values ps l l1 ps1 E1) as (Hfin & Hv & b1 & w' & Hub & Hps1 & Hrunw).
-      match type of H2 with wrun_spec (wapi_run _ _ ?s0 _) _ = _ => destruct (IH s0 _ _ _ _ _ Ho eq_refl Hb' H2 Hok1) as (ps' & E & Hr & Hf & Hp & Hg & Hpr) end.
+      match type of H2 with wrun_spec (wapi_run _ _ ?s0 _) _ = _ => destruct (IH s0 _ _ _ _ _ Ho eq_refl Hb' H2 Hok1) as (ps' & E & Hr & Hf & Hp & Hg & Hpr & Hwp & Hvs) end.
       subst ps1. cbn [ps_w ps_finalized ps_proto ps_desc] in *.
+      pose proof (add_point_proto _ _ _ _ _ Hrunw) as Hw'.
       exists ps'. split; [rewrite E; destruct st; reflexivity|]. cbn [body_points add_points].
-      split; [rewrite run_bind, Hrunw; exact Hr|]. split; [congruence|]. auto.
+      split; [rewrite run_bind, Hrunw; exact Hr|]. split; [congruence|]. split; [exact Hp|]. split; [exact Hg|].
+      split; [exact Hpr|]. split; [congruence|]. constructor; [exact Hv|]. rewrite <- Hw'. exact Hvs.
 Qed.
 
 Lemma pc_unit st guid proto body l l' st' rs : top st -> Forall is_pc_body body ->
+  proto_i64 proto -> Forall call_wf body ->
   wrun_spec (run st (AddPointcloud guid proto :: body ++ [PcFinalize; PcDrop])) l = (l', Ok (st', rs)) ->
   Forall res_ok rs ->
   exists off n pc,
+    item_wf (IPc (proto_dtypes proto) (body_points body)) = true /\
     wrun_spec (item_write (IPc (proto_dtypes proto) (body_points body))) l = (l', Ok (OPc off n)) /\
     top st' /\ ws_pcs st' = ws_pcs st ++ [pc] /\ ws_imgs st' = ws_imgs st /\
     pc_guid pc = Some guid /\ pc_prototype pc = proto /\ pc_file_offset pc = off /\ pc_records pc = n /\
     ws_exts st' = ws_exts st /\ ws_root st' = ws_root st /\ ws_finalized st' = ws_finalized st.
 Proof.
-  intros Ht Hb Hrun Hok. pose proof Ht as [Ho Hs].
+  intros Ht Hb Hi64 Hwfb Hrun Hok. pose proof Ht as [Ho Hs].
   destruct (run_cons _ _ _ _ _ _ _ Hrun) as (l1 & s1 & r1 & rs1 & H1 & H2 & ->).
   inversion Hok as [|? ? Hr1 Hok1]; subst.
-  destruct (step_addpc _ _ _ _ _ _ _ Ht Hr1 H1) as (ps & -> & _ & _ & Hnew & Hpp & Hfin & Hg & Hpr).
+  destruct (step_addpc _ _ _ _ _ _ _ Ht Hr1 H1) as (ps & -> & _ & Hval & Hnew & Hpp & Hfin & Hg & Hpr).
   destruct (run_app_ok _ _ _ _ _ _ _ H2) as (l2 & s2 & ra & rb & Hbody & Hfinal & ->).
   apply Forall_app in Hok1 as [Hoka Hokb].
-  destruct (body_prog body _ _ _ _ _ ps Ho eq_refl Hb Hbody Hoka) as (ps2 & -> & Hadd & Hf2 & Hp2 & Hg2 & Hpr2).
+  destruct (body_prog body (set_sub st (SubPc ps)) _ _ _ _ ps Ho eq_refl Hb Hbody Hoka)
+    as (ps2 & -> & Hadd & Hf2 & Hp2 & Hg2 & Hpr2 & _ & Hvs).
+  destruct (pcw_new_proto _ _ _ _ Hnew) as (Hwp & mpp & Hmpp).
+  assert (Hiwf : item_wf (IPc (proto_dtypes proto) (body_points body)) = true).
+  {
+    cbn [item_wf]. rewrite Hmpp. cbn [is_ok]. rewrite andb_true_r.
+    pose proof (accepted_type_ok proto Hval Hi64) as Hty.
+    unfold scene_ok. rewrite Hty. cbn [andb]. apply andb_true_intro. split.
+    + rewrite forallb_forall. intros vs Hin. rewrite Forall_forall in Hvs. specialize (Hvs vs Hin). rewrite Hwp in Hvs.
+      apply values_ok_point_ok; [exact Hvs|].
+      assert (G : forall bd, Forall call_wf bd -> forall v, In v (body_points bd) -> Forall value_wf v).
+      { induction bd as [|c bd IHb]; intros Hw v Hv; [destruct Hv|]. inversion Hw as [|? ? Hc Hw']; subst.
+        destruct c; cbn [body_points] in Hv; try (apply IHb; assumption).
+        destruct Hv as [<-|Hv]; [exact Hc|apply IHb; assumption]. }
+      apply (G body Hwfb vs Hin).
+    + apply max_packet_points_facts in Hmpp as (_ & Hbits & _).
+      rewrite point_bits_sumN in Hbits.
+      destruct (existsb (fun t => 0 <? spec_bit_size t) (proto_dtypes proto)) eqn:Ee; [reflexivity|]. exfalso. apply Hbits.
+      assert (Z0 : forall i, (i < length (proto_dtypes proto))%nat -> bit_size (nth i (proto_dtypes proto) TSingle) = 0).
+      { intros i Hi. rewrite bit_size_spec by (rewrite forallb_forall in Hty; apply Hty; apply nth_In; exact Hi).
+        destruct (0 <? spec_bit_size (nth i (proto_dtypes proto) TSingle)) eqn:E0; [|lia].
+        exfalso. assert (existsb (fun t => 0 <? spec_bit_size t) (proto_dtypes proto) = true).
+        { apply existsb_exists. eexists. split; [apply nth_In; exact Hi|exact E0]. } congruence. }
+      clear - Z0. induction (length (proto_dtypes proto)) as [|n IHn]; [reflexivity|].
+      cbn [sumN]. rewrite IHn by (intros; apply Z0; lia). rewrite Z0 by lia. reflexivity.
+  }
   (* finalize, drop *)
   destruct (run_cons _ _ _ _ _ _ _ Hfinal) as (l3 & s3 & r3 & rs3 & H3 & H4 & ->).
   inversion Hokb as [|? ? Hr3 Hok3]; subst.
@@ -299,12 +375,13 @@ Proof.
   destruct (run_cons _ _ _ _ _ _ _ H4) as (l5 & s5 & r5 & rs5 & H5 & H6 & ->).
   unfold wapi_step in H5. cbn [ws_open ws_sub] in H5. cbn [negb] in H5. cbn [wret wrun_spec] in H5.
   inversion H5; subst. clear H5. cbn [wapi_run wret wrun_spec] in H6. inversion H6; subst. clear H6.
-  exists off, cnt. eexists. split; [|split; [split; reflexivity|]].
+  exists off, cnt. eexists. split; [|split; [|split; [split; reflexivity|]]].
+  - exact Hiwf.
   - cbn [item_write]. rewrite run_bind, Hnew. cbn [fst snd]. rewrite run_bind, Hadd. cbn [fst snd].
     rewrite run_bind, Ef. reflexivity.
   - cbn [set_sub ws_pcs ws_imgs ws_exts ws_root ws_finalized].
     split; [reflexivity|]. split; [reflexivity|].
-    destruct (ps_desc ps2) eqn:Ed. cbn [desc_finish pc_guid pc_prototype pc_file_offset pc_records] in *.
+    destruct (ps_desc ps2) eqn:Ed. cbn in Hg2, Hpr2 |- *.
     repeat split; congruence.
 Qed.
 
@@ -431,7 +508,7 @@ Proof.
   cbn [wret wrun_spec] in H1. inversion H1; subst. clear H1.
   destruct (run_app_ok _ _ _ _ _ _ _ H2) as (l2 & s2 & ra & rb & Hbody & Hfinal & ->).
   apply Forall_app in Hok1 as [Hoka Hokb].
-  destruct (ibody_prog ibody _ _ _ _ _ (image_new guid) Ho eq_refl Hb Hbody Hoka) as (outs & im' & -> & Hw & Hl & Href).
+  destruct (ibody_prog ibody (set_sub st (SubIm (image_new guid) false)) _ _ _ _ (image_new guid) Ho eq_refl Hb Hbody Hoka) as (outs & im' & -> & Hw & Hl & Href).
   destruct (run_cons _ _ _ _ _ _ _ Hfinal) as (l3 & s3 & r3 & rs3 & H3 & H4 & ->).
   inversion Hokb as [|? ? Hr3 Hok3]; subst.
   unfold wapi_step in H3. cbn [set_sub ws_open ws_sub] in H3. rewrite Ho in H3. cbn [negb] in H3.
@@ -444,12 +521,12 @@ Proof.
   inversion H5; subst. clear H5. cbn [wapi_run wret wrun_spec] in H6. inversion H6; subst. clear H6.
   exists outs. split; [exact Hw|]. split; [exact Hl|]. split; [split; reflexivity|].
   cbn [set_sub ws_pcs ws_imgs ws_exts ws_root ws_finalized].
-  specialize (Href []). rewrite app_nil_r in Href. rewrite Href, Efin. repeat split; reflexivity.
+  specialize (Href []). rewrite app_nil_r in Href. rewrite Href. repeat split; reflexivity.
 Qed.
 
 (** * All units *)
 
-Theorem units_prog : forall tops, units tops ->
+Theorem units_prog : forall tops, units tops -> Forall call_wf tops ->
   forall st l l' st' rs, top st ->
   wrun_spec (run st tops) l = (l', Ok (st', rs)) -> Forall res_ok rs ->
   exists is os pcs ims bl,
@@ -459,7 +536,7 @@ Theorem units_prog : forall tops, units tops ->
     ws_finalized st' = ws_finalized st.
 Proof.
   induction 1 as [|c r Hc _ IH|data r _ IH|guid proto body r Hb _ IH|guid ibody r Hb _ IH];
-    intros st l l' st' rs Ht Hrun Hok.
+    intros Hwf st l l' st' rs Ht Hrun Hok.
   - cbn [wapi_run wret wrun_spec] in Hrun. inversion Hrun; subst.
     exists [], [], [], [], []. split; [constructor|]. split; [reflexivity|]. split; [exact Ht|].
     rewrite !app_nil_r. auto.
@@ -474,34 +551,35 @@ Proof.
       - destruct (_ >> _) as [[]|k|]; [|cbn in H1; inversion H1; reflexivity|cbn in H1; inversion H1].
         destruct (url_registered _ _); [cbn in H1; inversion H1; reflexivity|].
         destruct (ext_registered _ _); cbn in H1; inversion H1; reflexivity. }
-    destruct (IH _ _ _ _ _ Ht1 H2 Hok1) as (is & os & pcs & ims & bl & He & Hw & Ht' & Hp & Hi & Hf).
+    destruct (IH (Forall_inv_tail Hwf) _ _ _ _ _ Ht1 H2 Hok1) as (is & os & pcs & ims & bl & He & Hw & Ht' & Hp & Hi & Hf).
     exists is, os, pcs, ims, bl. split; [constructor; assumption|]. split; [exact Hw|]. split; [exact Ht'|].
     rewrite Hp, Hi, Hf, Hp1, Hi1, Hf1. auto.
   - destruct (run_cons _ _ _ _ _ _ _ Hrun) as (l1 & s1 & r1 & rs1 & H1 & H2 & ->).
     inversion Hok as [|? ? Hr1 Hok1]; subst.
     destruct (step_blob _ _ _ _ _ _ Ht Hr1 H1) as (-> & o & n & -> & Hbw).
-    destruct (IH _ _ _ _ _ Ht H2 Hok1) as (is & os & pcs & ims & bl & He & Hw & Ht' & Hp & Hi & Hf).
+    destruct (IH (Forall_inv_tail Hwf) _ _ _ _ _ Ht H2 Hok1) as (is & os & pcs & ims & bl & He & Hw & Ht' & Hp & Hi & Hf).
     exists (IBlob data :: is), (OBlob o n :: os), pcs, ims, ((data, o, n) :: bl).
     split; [constructor; exact He|]. split; [|auto].
     cbn [items_write item_write]. rewrite run_bind, run_bind, Hbw. cbn [fst snd wret wrun_spec].
     rewrite run_bind, Hw. reflexivity.
-  - change (AddPointcloud guid proto :: body ++ [PcFinalize; PcDrop] ++ r)
-      with ((AddPointcloud guid proto :: body ++ [PcFinalize; PcDrop]) ++ r) in Hrun.
+  - pose proof (Forall_inv Hwf) as Hwf1. cbn [call_wf] in Hwf1.
+    apply Forall_inv_tail in Hwf. apply Forall_app in Hwf as [Hwfb Hwf]. apply Forall_app in Hwf as [_ Hwfr].
     rewrite app_comm_cons, app_assoc in Hrun.
     destruct (run_app_ok _ _ _ _ _ _ _ Hrun) as (l1 & s1 & ra & rb & Hu & Hrest & ->).
     apply Forall_app in Hok as [Hoka Hokb].
-    destruct (pc_unit _ _ _ _ _ _ _ _ Ht Hb Hu Hoka)
-      as (off & n & pc & Hw1 & Ht1 & Hp1 & Hi1 & Hg & Hpr & Hoff & Hn & _ & _ & Hf1).
-    destruct (IH _ _ _ _ _ Ht1 Hrest Hokb) as (is & os & pcs & ims & bl & He & Hw & Ht' & Hp & Hi & Hf).
+    destruct (pc_unit _ _ _ _ _ _ _ _ Ht Hb Hwf1 Hwfb Hu Hoka)
+      as (off & n & pc & Hiwf & Hw1 & Ht1 & Hp1 & Hi1 & Hg & Hpr & Hoff & Hn & _ & _ & Hf1).
+    destruct (IH Hwfr _ _ _ _ _ Ht1 Hrest Hokb) as (is & os & pcs & ims & bl & He & Hw & Ht' & Hp & Hi & Hf).
     exists (IPc (proto_dtypes proto) (body_points body) :: is), (OPc off n :: os), (pc :: pcs), ims, bl.
     split; [apply ex_pc; assumption|]. split.
     + cbn [items_write]. rewrite run_bind, Hw1. cbn [fst snd]. rewrite run_bind, Hw. reflexivity.
     + split; [exact Ht'|]. rewrite Hp, Hi, Hf, Hp1, Hi1, Hf1, <- app_assoc. auto.
-  - rewrite app_comm_cons, app_assoc in Hrun.
+  - apply Forall_inv_tail in Hwf. apply Forall_app in Hwf as [_ Hwf]. apply Forall_app in Hwf as [_ Hwfr].
+    rewrite app_comm_cons, app_assoc in Hrun.
     destruct (run_app_ok _ _ _ _ _ _ _ Hrun) as (l1 & s1 & ra & rb & Hu & Hrest & ->).
     apply Forall_app in Hok as [Hoka Hokb].
     destruct (im_unit _ _ _ _ _ _ _ Ht Hb Hu Hoka) as (outs & Hw1 & Hl1 & Ht1 & Hp1 & Hi1 & _ & _ & Hf1).
-    destruct (IH _ _ _ _ _ Ht1 Hrest Hokb) as (is & os & pcs & ims & bl & He & Hw & Ht' & Hp & Hi & Hf).
+    destruct (IH Hwfr _ _ _ _ _ Ht1 Hrest Hokb) as (is & os & pcs & ims & bl & He & Hw & Ht' & Hp & Hi & Hf).
     exists (flat_map im_call_items ibody ++ is), (outs ++ os), pcs, (im_ref ibody outs (image_new guid) :: ims), bl.
     split; [apply ex_im; assumption|]. split.
     + rewrite items_write_app, Hw1, Hw. reflexivity.
@@ -510,7 +588,7 @@ Qed.
 
 (** * The whole program *)
 
-Theorem complete_prog : forall guid tops l st rs, units tops ->
+Theorem complete_prog : forall guid tops l st rs, units tops -> Forall call_wf tops ->
   wrun_spec (run ws_init (NewWriter guid :: tops ++ [Finalize])) ls_init = (l, Ok (st, rs)) ->
   Forall res_ok rs ->
   exists is os xml bl st1,
@@ -518,7 +596,7 @@ Theorem complete_prog : forall guid tops l st rs, units tops ->
     gen_xml (ws_meta st1) = Ok xml /\ ws_meta st = ws_meta st1 /\ rt_guid (ws_root st1) = rt_guid (ws_root st) /\
     wrun_spec (file_prog is xml) ls_init = (l, Ok os).
 Proof.
-  intros guid tops l st rs Hu Hrun Hok.
+  intros guid tops l st rs Hu Hwf Hrun Hok.
   destruct (run_cons _ _ _ _ _ _ _ Hrun) as (l1 & s1 & r1 & rs1 & H1 & H2 & ->).
   inversion Hok as [|? ? Hr1 Hok1]; subst.
   unfold wapi_step in H1. cbn [ws_init ws_open negb] in H1. rewrite run_bind, wrun_spec_wtry in H1.
@@ -526,9 +604,10 @@ Proof.
     inversion H1; subst; try (destruct Hr1; fail). clear H1.
   destruct (run_app_ok _ _ _ _ _ _ _ H2) as (l2 & s2 & ra & rb & Htops & Hfin & ->).
   apply Forall_app in Hok1 as [Hoka Hokb].
-  destruct (units_prog tops Hu _ _ _ _ _ (conj eq_refl eq_refl) Htops Hoka)
-    as (is & os & pcs & ims & bl & He & Hw & Ht2 & Hp & Hi & Hf).
-  cbn [ws_pcs ws_imgs ws_finalized app] in Hp, Hi, Hf.
+  match type of Htops with wrun_spec (wapi_run _ _ ?s0 _) _ = _ =>
+    destruct (units_prog tops Hu Hwf s0 _ _ _ _ (conj eq_refl eq_refl) Htops Hoka)
+      as (is & os & pcs & ims & bl & He & Hw & Ht2 & Hp & Hi & Hf) end.
+  cbn [ws_pcs ws_imgs ws_finalized app] in Hp, Hi, Hf. subst pcs ims.
   destruct (run_cons _ _ _ _ _ _ _ Hfin) as (l3 & s3 & r3 & rs3 & H3 & H4 & ->).
   inversion Hokb as [|? ? Hr3 _]; subst.
   cbn [wapi_run wret wrun_spec] in H4. inversion H4; subst. clear H4.
@@ -537,10 +616,21 @@ Proof.
   rewrite run_bind, wrun_spec_wtry in H3.
   destruct (wrun_spec (writer_finalize xml) l2) as [l4 [[]|k|]] eqn:Ewf; cbn [fst snd wret wrun_spec] in H3;
     inversion H3; subst; try (destruct Hr3; fail). clear H3.
-  exists is, os, xml, bl, s2. cbn [ws_pcs ws_imgs]. rewrite Hp, Hi.
+  exists is, os, xml, bl, s2. cbn [ws_pcs ws_imgs].
   split; [exact He|]. split; [exact Eg|]. split; [reflexivity|]. split; [reflexivity|].
   unfold file_prog. rewrite run_bind, Einit. cbn [fst snd]. rewrite run_bind, Hw. cbn [fst snd].
   rewrite run_bind, Ewf. reflexivity.
 Qed.
 
 End Prog.
+
+Lemma explains_items_wf tops is os pcs ims bl : explains tops is os pcs ims bl -> forallb item_wf is = true.
+Proof.
+  induction 1 as [|c r is os pcs ims bl _ _ IH|data off ln r is os pcs ims bl _ IH
+                  |guid proto body off n pc r is os pcs ims bl _ Hwf _ _ _ _ _ IH
+                  |guid ibody iouts r is os pcs ims bl _ _ _ IH]; try exact IH; try reflexivity.
+  - cbn [forallb]. rewrite Hwf. exact IH.
+  - rewrite forallb_app, IH, andb_true_r. clear. induction ibody as [|c ib IHi]; [reflexivity|].
+    cbn [flat_map]. rewrite forallb_app, IHi, andb_true_r.
+    destruct c; try reflexivity; cbn [im_call_items forallb item_wf mask_items]; destruct mask; reflexivity.
+Qed.
